@@ -22,3 +22,35 @@ impl Writer for RecordingWriter {
     fn write_u32_be(&mut self, value: u32) { self.data.extend_from_slice(&value.to_be_bytes()); }
     fn write_u64_be(&mut self, value: u64) { self.data.extend_from_slice(&value.to_be_bytes()); }
 }
+
+/// A writer that already "holds" `base` octets without storing them: `len()` counts them, appended octets are
+/// kept, and a positional overwrite below `base` (i.e. of earlier content) is recorded instead of performed.
+/// Lets the encoders run at positions beyond 64 KiB / 4 GiB.
+pub struct OffsetWriter {
+    pub base: usize,
+    pub data: Vec<u8>,
+    pub low: Vec<(usize, usize)>,
+}
+
+impl OffsetWriter {
+    pub fn new(base: usize) -> Self { Self { base, data: Vec::new(), low: Vec::new() } }
+}
+
+impl Writer for OffsetWriter {
+    fn is_empty(&self) -> bool { self.base == 0 && self.data.is_empty() }
+    fn len(&self) -> usize { self.base + self.data.len() }
+    fn write_bytes(&mut self, bytes: &[u8]) { self.data.extend_from_slice(bytes); }
+    fn write_bytes_at(&mut self, bytes: &[u8], offset: usize) {
+        if offset < self.base {
+            self.low.push((offset, bytes.len()));
+            return;
+        }
+        let o = offset - self.base;
+        assert!(o + bytes.len() <= self.data.len());
+        self.data[o..o + bytes.len()].copy_from_slice(bytes);
+    }
+    fn write_u8(&mut self, value: u8) { self.data.push(value); }
+    fn write_u16_be(&mut self, value: u16) { self.data.extend_from_slice(&value.to_be_bytes()); }
+    fn write_u32_be(&mut self, value: u32) { self.data.extend_from_slice(&value.to_be_bytes()); }
+    fn write_u64_be(&mut self, value: u64) { self.data.extend_from_slice(&value.to_be_bytes()); }
+}
